@@ -1315,6 +1315,10 @@ func (s *Store) GetRelatedAtTime(from *RelatedFrom, limit int) ([]qresult, *Rela
 					copy(cont.RelationIndexFromKey, k)
 					results = append(results, qresult{Time: uint64(et), EntityID: relatedID, PredicateID: predID, DatasetID: datasetID})
 					added[predID][relatedID] = true
+				} else if del != 1 {
+					// still skipping to the start key of this page: this relation was returned by an
+					// earlier page, remember that so it is not returned again from another dataset
+					added[predID][relatedID] = true
 				}
 
 				// set at end of iteration so that we jump over the item the previous page gave as continuation, while still
